@@ -23,7 +23,9 @@ const (
 	kLink
 )
 
-var linkTargets = []string{"b", "../d", "/d", "/a/b", "e", ".", "..", "/d/e", "c", "/f"}
+// (the last two carry a ".." after a component that may itself be a link: the link's own text
+// must be walked physically too, not cleaned lexically)
+var linkTargets = []string{"b", "../d", "/d", "/a/b", "e", ".", "..", "/d/e", "c", "/f", "a/b/..", "d/e/../e"}
 
 type forest struct {
 	kind   map[string]uint8
